@@ -35,7 +35,7 @@ type c07Fake struct {
 	emit, keys byte
 	valLen     int
 	segSize    uint64
-	graph      int // 0: stages [m1|s1] [idx|m2|out]; 1: a second store s2 (reads s1) in a stage of its own, out reads s2; 2: as 0 with s1 filtered on idx too; 3: as 0 with an append-policy s1; 4: as 0 with out reading s1 in deltas mode and s1 logging a no-op delete_prefix on blocks without input
+	graph      int // 0: stages [m1|s1] [idx|m2|out]; 1: a second store s2 (reads s1) in a stage of its own, out reads s2; 2: as 0 with s1 filtered on idx too; 3: as 0 with an append-policy s1; 4: as 0 with out reading s1 in deltas mode and s1 logging a no-op delete_prefix on blocks without input; 5: as 0 with a sparse out (reads s1 and m2 only); 6: as 0 with m2 filtered on "a && b", b never emitted
 	vals, wals []byte
 }
 
@@ -251,6 +251,16 @@ func c07Modules(graph int) *pbsubstreams.Modules {
 	if graph == 3 {
 		s1.Kind.(*pbsubstreams.Module_KindStore_).KindStore.UpdatePolicy = pbsubstreams.Module_KindStore_UPDATE_POLICY_APPEND
 	}
+	if graph == 6 {
+		// a conjunction whose second key no block ever carries: the mapper never runs
+		m2.BlockFilter.Query = &pbsubstreams.Module_BlockFilter_QueryString{QueryString: "a && b"}
+	}
+	outInputs := []*pbsubstreams.Module_Input{storeIn, mapIn("m1"), mapIn("m2")}
+	if graph == 5 {
+		// a sparse output module: it reads the store and the filtered mapper only, so it has no
+		// input — and does not run — on the blocks the index excludes
+		outInputs = []*pbsubstreams.Module_Input{storeIn, mapIn("m2")}
+	}
 	if graph == 2 {
 		// a store filtered on the index: with no matching block in the segment every executor of its
 		// stage may be excluded, and the job ends without streaming a block
@@ -264,7 +274,7 @@ func c07Modules(graph int) *pbsubstreams.Modules {
 			mapper("m1", src),
 			m2,
 			s1,
-			mapper("out", storeIn, mapIn("m1"), mapIn("m2")),
+			mapper("out", outInputs...),
 		},
 		Binaries: []*pbsubstreams.Binary{{Type: "wasm/rust-v1", Content: []byte{1}}},
 	}
